@@ -39,7 +39,8 @@ def strip_comments(src):
 
 
 # which machine-translated kernels a property's theorem file depends on (Proofs/Gen*.lean prove them equal to the hand model)
-GEN_KERNELS = {"C07": ["Utils", "Poly1305", "Blake2b", "SipHash", "Core"], "C09": ["Utils", "Argon2"], "C12": ["Utils", "Blake2b"], "C18": ["Utils", "Blake2b"]}
+GEN_KERNELS = {"C07": ["Utils", "Poly1305", "Blake2b", "SipHash", "Core"], "C09": ["Utils", "Argon2"], "C12": ["Utils", "Blake2b"], "C18": ["Utils", "Blake2b"],
+               "C14": ["Protected"], "C15": ["Protected"]}
 
 
 def regen_kernels():
